@@ -29,7 +29,10 @@ func VerifC18Lifecycle() {
 	for i := 0; i < N; i++ {
 		switch vChoice("op", 3) {
 		case 0:
-			vAssert(ml.Start(context.Background(), nil) == nil, "lifecycle/start-ok")
+			// the context handed to Start may be cancelled as soon as Start has returned
+			ctx, cancel := context.WithCancel(context.Background())
+			vAssert(ml.Start(ctx, nil) == nil, "lifecycle/start-ok")
+			cancel()
 			started++
 		case 1:
 			err := ml.Shutdown(context.Background())
